@@ -287,7 +287,7 @@ RULES.append(("C14.j", "must-pass-through: no path around the effects this prope
 
 def rule_commit(ctx):
     from . import mustpass
-    for g, floor in [('ports', 80), ('lockfree', 40)]:
+    for g, floor in [('ports', 80), ('lockfree', 25)]:
         mustpass.commit_group(ctx, g, floor)
 
 
